@@ -156,7 +156,7 @@ pub fn run(run: &mut Run) -> Finish {
             // simplest first: 0, 1, -1, 2, -2, ...
             let v: i64 = if k == 0 { 0 } else if k % 2 == 1 { (k / 2 + 1) as i64 } else { -((k / 2) as i64) };
             if let Some(viol) = check_values(&[v]) {
-                l.violation((1 << 40) + k, viol);
+                l.violation_sub((1 << 40) + k / BLOCK, k % BLOCK, viol);
             }
             l.evals += 1;
             l.nontrivial += 1;
@@ -229,7 +229,7 @@ pub fn run(run: &mut Run) -> Finish {
             }
             let (v, class, _) = check_string(&buf[..len]);
             if let Some(v) = v {
-                l.violation((4 << 40) + k, v);
+                l.violation_sub((4 << 40) + k / SB, k % SB, v);
             }
             l.evals += 1;
             if class >= 16 {
